@@ -160,7 +160,15 @@ pub fn run_script(s: &Script, plan: Option<Plan>) -> Result<RunResult, Fail> {
         }
     };
     for st in &s.steps {
-        let r = catch(|| (st.run)(&mut pkg)).map_err(|(l, m)| panicked(st.name, l, m))?;
+        let r = match catch(|| (st.run)(&mut pkg)) {
+            Ok(r) => r,
+            Err((l, m)) => {
+                // as in the generated scripts: a package that panicked is not
+                // touched again, not even by its destructor
+                std::mem::forget(pkg);
+                return Err(panicked(st.name, l, m));
+            }
+        };
         match r {
             Ok(()) => {
                 if let Some(j) = st.point {
@@ -284,7 +292,18 @@ fn run_generated(seq: &SeqCase, plan: Option<Plan>) -> Result<(Vec<Option<Result
         }
         let Some(p) = pkg.as_mut() else { break };
         let is_flush = matches!(op, OpSeed::Flush);
-        let r = catch(|| mirror(p, &shadow, op)).map_err(|(l, m)| Fail::new(format!("{P} panic at={l}"), format!("{} panicked under {plan:?}: {m}", op.kind())))?;
+        let r = match catch(|| mirror(p, &shadow, op)) {
+            Ok(r) => r,
+            Err((l, m)) => {
+                // the panic is the verdict; the package (whose container may
+                // now hold a poisoned lock) is not touched again, not even
+                // by its destructor
+                if let Some(broken) = pkg.take() {
+                    std::mem::forget(broken);
+                }
+                return Err(Fail::new(format!("{P} panic at={l}"), format!("{} panicked under {plan:?}: {m}", op.kind())));
+            }
+        };
         match r {
             Ok(()) => {
                 if is_flush {
